@@ -709,6 +709,16 @@ def main(tier):
         run_tables(res)
     except Exception as e:  # pylint: disable=broad-except
         rep.harness_error("byte-order: %s" % "".join(traceback.format_exception(type(e), e, e.__traceback__))[-900:])
+    reserved = None
+    try:
+        from vf.checks import c14r
+        reserved = c14r.run(rep, tier)
+        for k in ("paths", "obligations", "discharged", "queries"):
+            res[k] += reserved[k]
+        names.append("reserved-words")
+        res["witness"]["reserved-words:accepted"] = res["witness"]["reserved-words:rejected"] = True  # checked per position in c14r
+    except Exception as e:  # pylint: disable=broad-except
+        rep.harness_error("reserved-words: %s" % "".join(traceback.format_exception(type(e), e, e.__traceback__))[-900:])
     for u in res["unknown"]:
         rep.inconclusive_item(u)
     seen = set()
@@ -759,12 +769,19 @@ def main(tier):
         "functions_encoded": ["constraints._check_physical_type_requirements (with ir_util.constant_value on prelude.emb static_requirements)",
                               "constraints._check_that_enum_values_are_representable", "constraints._check_size_of_bits",
                               "constraints._check_type_requirements_for_field", "constraints._check_that_array_base_types_in_structs_are_multiples_of_bytes",
-                              "attribute_checker._verify_width_attribute_on_enum", "attribute_checker._add_missing_width_and_sign_attributes_on_enum"],
+                              "attribute_checker._verify_width_attribute_on_enum", "attribute_checker._add_missing_width_and_sign_attributes_on_enum",
+                              "constraints.check_constraints with constraints._check_name_for_reserved_words / get_reserved_word_list (reserved words)"],
         "bounds": {"numbers": "unbounded integers (maximum_bits 1..64 enumerated by the code's own 2**n)",
                    "byte order": "finite domain: 6 field types x module default x default on an earlier sibling x default on the enclosing structure x field attribute, through the whole front end",
                    "tables": "finite domain, through front end and C++ back end: 7 attributes x 6 placements x plain/$default x once/twice; "
                              "allowed and disallowed values per attribute; 9 kinds of member of a bits type",
-                   "outside": "reserved words (the documented list is the file the compiler reads)"},
+                   "reserved words": reserved or "not run",
+                   "reserved words, what is symbolic": "the name: every string of 1..(longest reserved word + 1) unconstrained characters, per name "
+                                                      "position (17: fields of structs/bits/anonymous bits/inline and nested types, virtual fields, "
+                                                      "struct/bits/enum/external/nested types, enum values of top-level/nested/inline enums); "
+                                                      "rejected iff the string is in compiler/front_end/reserved_words as read by the check's own parser "
+                                                      "(united with the list printed in doc/grammar.md); precondition: the name differs from the other names of the module",
+                   "outside": "reserved words as names of runtime parameters and abbreviations (the documentation names field, type and enum value names only)"},
     })
     rep.assumptions += ["numeric thresholds and attribute tables as transcribed from doc/language-reference.md in vf/checks/c14.py"]
     return rep.finish()
@@ -811,6 +828,13 @@ def replay_file(path):
         obj = json.load(f)
     if obj["replay"].get("harness") == "byte-order":
         ok, observed = replay_byte_order(obj["replay"])
+        print("replay %s: %s -> %s" % (path, "REPRODUCED" if ok else "did not reproduce", observed))
+        if ok:
+            print("VIOLATION property=C14 replay=%s" % path)
+        return 1 if ok else 0
+    if obj["replay"].get("harness") == "reserved-words":
+        from vf.checks import c14r
+        ok, observed = c14r.replay(obj["replay"])
         print("replay %s: %s -> %s" % (path, "REPRODUCED" if ok else "did not reproduce", observed))
         if ok:
             print("VIOLATION property=C14 replay=%s" % path)
